@@ -17,6 +17,7 @@ package utils
 import (
 	"bytes"
 	"encoding/json"
+	"math/big"
 	"strconv"
 	"strings"
 
@@ -312,10 +313,8 @@ func EqualTypedValues(v1, v2 *sdcpb.TypedValue) bool {
 			if v1 == nil || v2 == nil {
 				return false
 			}
-			if v1.DecimalVal.GetDigits() != v2.DecimalVal.GetDigits() {
-				return false
-			}
-			return v1.DecimalVal.GetPrecision() == v2.DecimalVal.GetPrecision()
+			// 1.50 and 1.5 are the same number, compare the values not their representation
+			return decimal64Equal(v1.DecimalVal, v2.DecimalVal)
 		default:
 			return false
 		}
@@ -395,6 +394,14 @@ func EqualTypedValues(v1, v2 *sdcpb.TypedValue) bool {
 					return false
 				}
 			}
+			return true
+		default:
+			return false
+		}
+	case *sdcpb.TypedValue_DoubleVal:
+		switch v2 := v2.GetValue().(type) {
+		case *sdcpb.TypedValue_DoubleVal:
+			return v1.DoubleVal == v2.DoubleVal
 		default:
 			return false
 		}
@@ -438,8 +445,22 @@ func EqualTypedValues(v1, v2 *sdcpb.TypedValue) bool {
 			return false
 		}
 	}
-	// TODO: Why is this default case to return true??
-	return true
+	// two values that carry no value at all are equal, everything else is not comparable
+	return v1.GetValue() == nil && v2.GetValue() == nil
+}
+
+// decimal64Equal compares the numeric value of two Decimal64, independent of their precision.
+func decimal64Equal(d1, d2 *sdcpb.Decimal64) bool {
+	b1, b2 := big.NewInt(d1.GetDigits()), big.NewInt(d2.GetDigits())
+	p1, p2 := d1.GetPrecision(), d2.GetPrecision()
+	ten := big.NewInt(10)
+	switch {
+	case p1 < p2:
+		b1.Mul(b1, new(big.Int).Exp(ten, big.NewInt(int64(p2-p1)), nil))
+	case p2 < p1:
+		b2.Mul(b2, new(big.Int).Exp(ten, big.NewInt(int64(p1-p2)), nil))
+	}
+	return b1.Cmp(b2) == 0
 }
 
 func TypedValueToString(tv *sdcpb.TypedValue) string {
